@@ -105,6 +105,65 @@ struct Found {
 enum Target {
     Exec(ExecTarget),
     Sharded { rt: tokio::runtime::Runtime, st: crate::c03::State, clock: crate::c03::ManualTime },
+    /// The node `server-persistent` runs: ReplicatedShardedState (16 shards) with an always-fsync WAL attached whose disk
+    /// fails while some of the commands run (append / fsync errors). Whatever the node answers then, an error reply must
+    /// still mean "nothing changed".
+    Replicated { rt: tokio::runtime::Runtime, st: redis_sim::production::ReplicatedShardedState<crate::c03::ManualTime>, clock: crate::c03::ManualTime, disk_fails: std::sync::Arc<std::sync::atomic::AtomicBool> },
+}
+
+/// shards == REPLICATED selects the replicated node with the flaky WAL disk
+const REPLICATED: usize = 1000;
+
+mod flaky {
+    use redis_sim::streaming::wal_store::{InMemoryWalStore, WalError, WalFileReader, WalFileWriter, WalStore};
+    use std::sync::atomic::{AtomicBool, Ordering};
+    use std::sync::Arc;
+
+    /// InMemoryWalStore whose writers report I/O errors while the switch is on
+    #[derive(Clone)]
+    pub struct FlakyWalStore(pub InMemoryWalStore, pub Arc<AtomicBool>);
+    pub struct FlakyWriter<W: WalFileWriter>(W, Arc<AtomicBool>);
+    impl<W: WalFileWriter> WalFileWriter for FlakyWriter<W> {
+        fn append(&mut self, data: &[u8]) -> Result<u64, WalError> {
+            if self.1.load(Ordering::SeqCst) {
+                return Err(WalError::Io(std::io::Error::new(std::io::ErrorKind::Other, "disk fails (planned)")));
+            }
+            self.0.append(data)
+        }
+        fn sync(&mut self) -> Result<(), WalError> {
+            if self.1.load(Ordering::SeqCst) {
+                return Err(WalError::FsyncFailed("disk fails (planned)".into()));
+            }
+            self.0.sync()
+        }
+        fn size(&self) -> u64 {
+            self.0.size()
+        }
+    }
+    impl WalStore for FlakyWalStore {
+        type Writer = FlakyWriter<<InMemoryWalStore as WalStore>::Writer>;
+        type Reader = <InMemoryWalStore as WalStore>::Reader;
+        fn create(&self, name: &str) -> Result<Self::Writer, WalError> {
+            if self.1.load(Ordering::SeqCst) {
+                return Err(WalError::Io(std::io::Error::new(std::io::ErrorKind::Other, "disk fails (planned)")));
+            }
+            Ok(FlakyWriter(self.0.create(name)?, self.1.clone()))
+        }
+        fn open_read(&self, name: &str) -> Result<Self::Reader, WalError> {
+            self.0.open_read(name)
+        }
+        fn list(&self) -> Result<Vec<String>, WalError> {
+            self.0.list()
+        }
+        fn delete(&self, name: &str) -> Result<(), WalError> {
+            self.0.delete(name)
+        }
+        fn exists(&self, name: &str) -> Result<bool, WalError> {
+            self.0.exists(name)
+        }
+    }
+    #[allow(dead_code)]
+    fn _reader_is_a_reader<R: WalFileReader>(_: R) {}
 }
 
 impl Target {
@@ -113,6 +172,20 @@ impl Target {
             return Target::Exec(ExecTarget::new());
         }
         let rt = tokio::runtime::Builder::new_current_thread().enable_all().build().expect("rt");
+        if shards == REPLICATED {
+            use redis_sim::streaming::{spawn_wal_actor, FsyncPolicy, WalConfig};
+            let clock = crate::c03::ManualTime(std::sync::Arc::new(std::sync::atomic::AtomicU64::new(EPOCH_MS as u64)));
+            let disk_fails = std::sync::Arc::new(std::sync::atomic::AtomicBool::new(false));
+            let st = rt.block_on(async {
+                let mut st = redis_sim::production::ReplicatedShardedState::with_time_source(redis_sim::replication::ReplicationConfig::new_cluster(1, vec![]), clock.clone());
+                let store = flaky::FlakyWalStore(redis_sim::streaming::wal_store::InMemoryWalStore::new(), disk_fails.clone());
+                let cfg = WalConfig { enabled: true, wal_dir: "/nonexistent/c17".into(), fsync_policy: FsyncPolicy::Always, max_file_size: 4096, group_commit_max_entries: 4, group_commit_max_wait: std::time::Duration::from_micros(50), truncation_check_interval: std::time::Duration::from_secs(3600) };
+                let (h, _task) = spawn_wal_actor(store, cfg).expect("wal actor");
+                st.set_wal_handle(h);
+                st
+            });
+            return Target::Replicated { rt, st, clock, disk_fails };
+        }
         let (st, clock) = rt.block_on(async { crate::c03::new_state(shards) });
         Target::Sharded { rt, st, clock }
     }
@@ -125,6 +198,23 @@ impl Target {
                     rt.block_on(st.evict_expired_all_shards());
                 }
             }
+            Target::Replicated { rt, st, clock, .. } => {
+                clock.0.fetch_add(ms.max(0) as u64, std::sync::atomic::Ordering::SeqCst);
+                if mode == 2 {
+                    rt.block_on(st.evict_expired_all_shards());
+                }
+            }
+        }
+    }
+    /// the WAL disk of the replicated node fails while command `i` runs (a third of the commands)
+    fn plan_fault(&mut self, i: usize) {
+        if let Target::Replicated { disk_fails, .. } = self {
+            disk_fails.store((i as u64).wrapping_mul(2654435761) % 3 == 0, std::sync::atomic::Ordering::SeqCst);
+        }
+    }
+    fn clear_fault(&mut self) {
+        if let Target::Replicated { disk_fails, .. } = self {
+            disk_fails.store(false, std::sync::atomic::Ordering::SeqCst);
         }
     }
     fn run(&mut self, a: &Argv) -> Result<Tree, String> {
@@ -137,6 +227,14 @@ impl Target {
                     Tree::Error(text.into_bytes())
                 }
                 Ok(cmd) => myresp::from_resp(&rt.block_on(st.execute(&cmd))),
+            }),
+            Target::Replicated { rt, st, .. } => guard(|| match parse_argv(a) {
+                Err(e) => {
+                    let known = ["ERR ", "WRONGTYPE ", "WRONGPASS ", "EXECABORT ", "NOAUTH ", "NOPERM "];
+                    let text = if known.iter().any(|p| e.starts_with(p)) { e } else { format!("ERR {}", e) };
+                    Tree::Error(text.into_bytes())
+                }
+                Ok(cmd) => myresp::from_resp(&rt.block_on(st.execute(cmd))),
             }),
         }
     }
@@ -159,7 +257,10 @@ fn run_on(steps: &[Step], shards: usize, mut seen: impl FnMut(&str, &str, bool))
                     Ok(s) => s,
                     Err(_) => return None,
                 };
-                let got = match t.run(a) {
+                t.plan_fault(i);
+                let got = t.run(a);
+                t.clear_fault();
+                let got = match got {
                     Ok(g) => g,
                     Err(p) => {
                         return Some(Found { sig: format!("C17|{}|panic|{}", name, panic_class(&p)), detail: format!("panic: {}", p), at: i });
@@ -184,7 +285,7 @@ fn run_on(steps: &[Step], shards: usize, mut seen: impl FnMut(&str, &str, bool))
                         (name, facet)
                     };
                     return Some(Found {
-                        sig: if shards == 0 || name.starts_with("EVAL:") { format!("C17|{}|{}|{}", name, why, facet) } else { format!("C17|{}|{}|{}|sharded-node", name, why, facet) },
+                        sig: if shards == 0 || name.starts_with("EVAL:") { format!("C17|{}|{}|{}", name, why, facet) } else if shards == REPLICATED { format!("C17|{}|{}|{}|replicated-node,wal-disk-fails", name, why, facet) } else { format!("C17|{}|{}|{}|sharded-node", name, why, facet) },
                         detail: format!("step {} {:?} replied {:?} but the visible keyspace changed: {:?} -> {:?}", i, a.iter().map(|x| lossy(x)).collect::<Vec<_>>(), got, before, after),
                         at: i,
                     });
@@ -230,6 +331,7 @@ pub fn leg(args: &Args) {
     let mut rng = args.rng(17);
     let nseq = args.get_u64("sequences", if args.thorough() { 12_000 } else { 900 });
     let (mut checked_err, mut checked_ro) = (0u64, 0u64);
+    let mut checked_repl_err = 0u64;
     for s in 0..nseq {
         let len = rng.gen_range(2..40);
         let mut steps = vec![];
@@ -310,12 +412,28 @@ pub fn leg(args: &Args) {
                 }
             }
         }
+        // the same sequence on the replicated node with an always-fsync WAL whose disk fails during a third of the commands
+        if s % 4 == 1 {
+            rep.count("sequences_on_a_replicated_node_with_a_failing_wal_disk");
+            if let Some(f) = run_on(&steps, REPLICATED, |_, k, _| {
+                if k.starts_with("err") {
+                    checked_repl_err += 1;
+                }
+            }) {
+                if !rep.has_sig(&f.sig) {
+                    let mut cur = steps.clone();
+                    cur.truncate(f.at + 1);
+                    rep.violation(f.sig, f.detail, json!({"shards": REPLICATED, "steps": cur.iter().map(step_json).collect::<Vec<_>>()}));
+                }
+            }
+        }
         if s < 2 {
             rep.sample(json!({"steps": steps.iter().take(10).map(step_json).collect::<Vec<_>>()}));
         }
     }
     rep.add("failing_commands_checked", checked_err);
     rep.add("read_only_commands_checked", checked_ro);
+    rep.add("failing_commands_checked_on_the_replicated_node", checked_repl_err);
     if checked_err < 50 || checked_ro < 50 {
         rep.inconclusive("too few failing / read-only commands were generated");
     }
